@@ -32,7 +32,9 @@ package crypto
 //@   ensures consumed: len(stream(r)) == 0
 //@   ensures count: len(packets) == (len(old(stream(r))) + 1023) / 1024
 //@   ensures chunks: forall(k, 0, len(packets), packets[k].length == len(packets[k].value) && seq(packets[k].value) == sub(old(stream(r)), 1024 * k, ite(1024 * k + 1024 <= len(old(stream(r))), 1024 * k + 1024, len(old(stream(r))))))
+//@   ensures own: forall(k, 0, len(packets), fresh(packets[k].value)) && (cap(packets) == 0 || fresh(packets))
 //@   loop 0
+//@     invariant ownv: forall(k, 0, len(packets), fresh(packets[k].value))
 //@     invariant own: cap(packets) == 0 || fresh(packets)
 //@     invariant pos: len(old(stream(r))) == 1024 * len(packets) + len(stream(r)) && stream(r) == sub(old(stream(r)), 1024 * len(packets), len(old(stream(r))))
 //@     invariant chunks: forall(k, 0, len(packets), packets[k].length == 1024 && len(packets[k].value) == 1024 && seq(packets[k].value) == sub(old(stream(r)), 1024 * k, 1024 * k + 1024))
@@ -42,3 +44,20 @@ package crypto
 //@   ensures consumed: len(stream(r)) == 0
 //@   ensures count: len(packets) == (len(old(stream(r))) + 1023) / 1024
 //@   ensures chunks: forall(k, 0, len(packets), packets[k].length == len(packets[k].value) && seq(packets[k].value) == sub(old(stream(r)), 1024 * k, ite(1024 * k + 1024 <= len(old(stream(r))), 1024 * k + 1024, len(old(stream(r))))))
+//@   ensures own: forall(k, 0, len(packets), fresh(packets[k].value)) && (cap(packets) == 0 || fresh(packets))
+
+// Encrypt: the output is exactly the sequence of frames the specification prescribes for the whole input, under the
+// session's encrypt key, with consecutive counters starting at encryptCount, which advances by the number of frames.
+//@ func (s *secureSession) Encrypt(r) (out, err)
+//@   requires s != nil && r != nil
+//@   assume nowrap
+//@   modifies s.encryptCount, stream(r)
+//@   ensures ok: err == nil && out != nil
+//@   ensures wire: stream(out) == enc_pre(old(seq(s.encryptKey)), old(s.encryptCount), old(stream(r)), (len(old(stream(r))) + 1023) / 1024)
+//@   ensures count: s.encryptCount == old(s.encryptCount) + (len(old(stream(r))) + 1023) / 1024
+//@   loop 0
+//@     invariant idx: 0 <= loopidx && loopidx <= len(packets) && len(packets) == (len(old(stream(r))) + 1023) / 1024
+//@     invariant chunks: forall(k, 0, len(packets), packets[k].length == len(packets[k].value) && seq(packets[k].value) == sub(old(stream(r)), 1024 * k, ite(1024 * k + 1024 <= len(old(stream(r))), 1024 * k + 1024, len(old(stream(r))))))
+//@     invariant own: forall(k, 0, len(packets), ref(packets[k].value) != ref(s) && !(existed(packets[k].value))) && (cap(packets) == 0 || (ref(packets) != ref(s) && !existed(packets)))
+//@     invariant key: seq(s.encryptKey) == old(seq(s.encryptKey)) && s.encryptCount == old(s.encryptCount) + loopidx
+//@     invariant wire: stream(addr(buf)) == enc_pre(old(seq(s.encryptKey)), old(s.encryptCount), old(stream(r)), loopidx) && enc_mark(old(seq(s.encryptKey)), old(s.encryptCount), old(stream(r)), loopidx)
